@@ -128,6 +128,24 @@ impl Kit {
         }
     }
 
+    /// A validation report (plus matching metrics) whose only validated content is the given
+    /// ASPAs, pushed through one publication point of TAL "ta". `config.enable_aspa` must be on.
+    pub fn report_with_aspas(&self, config: &Config, aspas: &[MAspa]) -> (ValidationReport, Metrics) {
+        let report = ValidationReport::new(config);
+        let mut metrics = Metrics::new();
+        if !aspas.is_empty() {
+            metrics.tals.push(TalMetrics::new(TalInfo::from_name("ta".to_string()).into_arc()));
+            let ca = self.ca_cert("ta", 0);
+            let mut point = (&report).process_ta(&self.tal, &self.ta_uri, &ca, 0).expect("process_ta").expect("processor");
+            let ee = self.resource_cert("ta");
+            for a in aspas {
+                point.process_aspa(&self.obj_uri, ee.clone(), self.aspa_att(a)).expect("process_aspa");
+            }
+            point.commit();
+        }
+        (report, metrics)
+    }
+
     /// The TA certificate validated under a TAL info with the given name.
     pub fn resource_cert(&self, tal_name: &str) -> ResourceCert {
         self.ta_cert.clone().validate_ta(TalInfo::from_name(tal_name.to_string()).into_arc(), false).expect("validate_ta")
